@@ -169,8 +169,12 @@ func verifUrlBoot(sc *verifUrlScn) (*verifUrlStack, error) {
 	u := &verifUrlStack{boot: &verifUrlSink{}}
 	u.be = zzverif.NewBackend("e1", zzverif.NewGroup())
 	u.be.SetModelsOpenAI([]string{"m1"})
-	u.be.HealthPath = verifUrlJoinBase(sc.Base, "/health")
-	u.be.ModelsPath = verifUrlJoinBase(sc.Base, "/v1/models")
+	basePath := sc.Base // the configured endpoint URL may carry a query of its own
+	if i := strings.IndexByte(basePath, '?'); i >= 0 {
+		basePath = basePath[:i]
+	}
+	u.be.HealthPath = verifUrlJoinBase(basePath, "/health")
+	u.be.ModelsPath = verifUrlJoinBase(basePath, "/v1/models")
 	u.be.OnAux = func(kind string, r *zzverif.Recv) {
 		u.boot.emit("AuxRecv", append([]any{"which", kind}, u.recvFields(r)...)...)
 	}
